@@ -335,8 +335,20 @@ var payloadAlphabet = []byte{0x00, 0x00, 0x00, 0x01, 0x02, 0x03, 0x04, 0x5a, 0x8
 func genPayloadBytes(r *runner.Rand, n int) []byte {
 	b := make([]byte, n)
 	mode := r.Intn(6)
+	if n >= 254 && r.Bool() || r.Chance(1, 8) {
+		mode = 6
+	}
 	for i := range b {
 		switch mode {
+		case 6:
+			// zero-free body, alphabet bytes only in the first and last three positions: the only 00 00 0x
+			// patterns are those formed across the message boundaries (after a size byte 00 of a
+			// multiple-of-255 size, before the next type byte or the trailing bits)
+			if i < 3 || i >= n-3 {
+				b[i] = payloadAlphabet[r.Intn(len(payloadAlphabet))]
+			} else {
+				b[i] = byte(1 + r.Intn(255))
+			}
 		case 0: // all zero
 		case 1:
 			b[i] = byte(r.Intn(256))
